@@ -320,7 +320,10 @@ def run_e1(ctx, roots_pattern, rule='E1-panic', stop_pattern=None, wide=False, e
     for bid, n in bodies.items():
         b = db.bodies[bid]
         inst = db.instances[n]
-        for s in sites_of_body(ctx, b, inst, table, wide=wide):
+        body_sites = sites_of_body(ctx, b, inst, table, wide=wide)
+        if not body_sites:
+            r.ok(rule, 'body:' + b.path, 'no panic site (assert / panic macro / panicking API call) in this reachable body', status='auto', loc=b.loc)
+        for s in body_sites:
             nsites += 1
             res, why = try_auto(ctx, s)
             path = cg.fmt_path(par, n)
